@@ -1,9 +1,10 @@
-//verif:dir x/auth/keeper
+//verif:dir x/nodes/keeper
+//verif:for C19,C21,C22,C23,C24,C25,C18,C12
 //go:build !verifnative
 
 package keeper
 
 import "github.com/pokt-network/pocket-core/codec"
 
-// engine: every codec call is served by the opaque codec, the object itself is never inspected
+// engine: every codec call is served by the opaque codec
 func verifCodec() *codec.Codec { return codec.NewCodec(nil) }
